@@ -379,6 +379,16 @@ def w_random(acc, n, seed):
     harness.run_hyp(acc, "equality", o_equality, equality, max(200, n // 2), seed)
 
 
+def w_large(acc, n):
+    fields = [["k%d" % i, "v%d" % i] for i in range(n)]
+    ops = []
+    for i in range(0, n, 3):
+        ops += [["setitem", "k%d" % i, "w"], ["pop", "k%d" % (i + 1)], ["set_field", "new%d" % i, "x"], ["get", "k%d" % (i + 2)], ["contains", "k%d" % (i + 1)]]
+    ops += [["del", "k0"], ["getitem", "k2"], ["rename", "k2", "renamed"], ["reserved", "ID"]]
+    acc.run("mapping", o_mapping, {"type": "article", "key": "K", "fields": fields, "ops": ops}, True)
+    acc.classes["large-entry"] += 1
+
+
 def w_docs(acc):
     for i in range(len(DOCS)):
         for stack in ("split", "default"):
@@ -458,7 +468,7 @@ def run(chk):
     depth = 3 if quick else 4
     n_ops = len(small_ops(KEYS_SMALL))
     starts = [[], [["a", "1"], ["b", "2"]], [["A", "1"], ["a", "2"], ["b", "3"]]]
-    tasks = [("w_docs", ())]
+    tasks = [("w_docs", ())] + [("w_large", (n,)) for n in (130, 300, 1100)]
     for d in range(1, depth + 1):
         for first in range(n_ops):
             for st_ in (starts if d < 4 else starts[2:]):
